@@ -11,7 +11,11 @@ THEOREMS = ["next_seek_mix", "enumerates", "exhausted_invalid", "empty_invalid_n
             "tree_inorder", "slice_exact", "list_is_ordered_set", "allOf_exact", "anyOf_exact", "stacked_exact",
             "reopen_setsym", "reopen_empty_invalid", "reopen_stacked", "reopen_subquery_setsym",
             "reopen_subquery_stacked", "scan_fallback_seek", "reopen_subquery_paged",
-            "interleaved_cursors_independent"]
+            "interleaved_cursors_independent",
+            "write_script_setsym", "reopen_after_write_enumerates_current", "seek_after_reopen_after_write",
+            "reseek_after_keywrite_setsym", "write_script_bolt", "reopen_after_write_any", "reopen_after_write_stacked",
+            "reopen_after_write_subquery_paged", "write_script_subquery_setsym", "write_script_idcursor",
+            "idcursor_seek_after_write", "reopen_after_update", "reopen_after_delete"]
 
 RULE = ("random cursor descriptions (every cursor constructor / provider of the library: raw and typed bolt "
         "cursors forward and reverse through TypedBucket, set index key/value cursors, related-entity, link and "
@@ -37,7 +41,21 @@ RULE = ("random cursor descriptions (every cursor constructor / provider of the 
         "*TypedBucket value (IterateStringList, IterateStringListInDirection, OpenTypedCursor, OpenSeekableCursor, OpenCursor, "
         "both directions), one link / ref-counted link collection, one store and entity (GetRelatedEntitiesCursor, runtime "
         "set symbols, IterateIds) in one transaction and driven by interleaved scripts (lock step, and random alternation of "
-        "Next / Seek / SeekToString, <= 8 steps; every ordered pair of bucket-level openers); non-trivial = the "
+        "Next / Seek / SeekToString, <= 8 steps; every ordered pair of bucket-level openers); plus W cases: one cursor object "
+        "RE-OPENED / RE-SOUGHT AFTER THE SET UNDER IT WAS REWRITTEN inside one write transaction — scripts of 2-5 items "
+        "`writes; entry; operations` on a real store pair, writes = things.Update (all fields / only the tags list: the list "
+        "bucket is deleted and re-created), single keys put into / deleted from the tags bucket, the set symbol's Map, "
+        "links.AddLinks/RemoveLinks, rcLinks.Increment/DecrementLinkCount, DeleteById, Create, others.Update; entry = open "
+        "on a row (mostly the SAME row as before, no other row in between; other rows as control) or Seek / SeekToString "
+        "on the object as it stands (only where the bucket object survived the writes); objects: one runtime set symbol "
+        "(tags / others / rcOthers, direct and through the row cursor of a scan), composite symbols, the sub-query scanner "
+        "(unpaged with Seek, paged), per-call providers (GetRelatedEntitiesCursor, IterateLinks, ref-counted IterateLinks and "
+        "all eight cursor providers of the row's TypedBucket), and the id cursor IterateIds with the parsed filters "
+        "anyOf(tags) = T / not (…) / isEmpty(tags) / count(tags) >= N / anyOf(others) = O / true (rows whose verdict "
+        "changes, ids created and deleted, Seek back to the row the cursor stands on); random worlds and, on a fixed world, "
+        "every `open row; <= 1 op; ONE write out of 25 covering every write path; open same / other row or re-seek; <= 1 op` "
+        "for each of the 42 object kinds; each script runs with the fixture written in the same transaction and over the "
+        "committed fixture; non-trivial = the "
         "script has at least one operation and the cursor is valid at some point; distinct = (description, script)")
 
 
@@ -56,6 +74,9 @@ def _shape(case):
     toks = f[0].split(";") if f[0] != "X" else f[1].split(";")
     if toks[0] == "R":
         return "reuse:" + toks[1] + ":" + toks[2]
+    if toks[0] == "W":
+        # an id cursor's PATH is its filter (`any.<T>`): the histogram keeps the filter form
+        return "write:" + toks[1].split(".")[0] + ":" + (toks[2].split(".")[0] if toks[1] == "i" else toks[2])
     if toks[0] == "M":
         return "multi:" + toks[1].replace(",", "&")
     if toks[0] == "stacked":
@@ -73,6 +94,11 @@ def nontrivial(case, impl):
     if len(f) == 2 and f[0].startswith("M;"):
         # at least two different cursors are operated and something is valid
         if len({t[0] for t in f[1].split(",") if t != "_"}) > 1 and any(t.startswith("v") for t in impl.split(" ")):
+            return case
+        return None
+    if len(f) == 2 and f[0].startswith("W;"):
+        # something is written between two entries and the cursor is valid at some point
+        if ">" in f[1] and f[1].count("/") >= 1 and any(t.startswith("v") for t in impl.split(" ")):
             return case
         return None
     if len(f) == 2 and f[0].startswith("R;"):
@@ -111,6 +137,80 @@ def _first_diff(a, b):
     return None
 
 
+def _world_cands(desc, ops):
+    """the world of an R / W case: drop a row, empty one field of a row, drop one element of a list, drop a kept id
+    (a candidate whose fixture cannot be built — a link to a dropped entity — answers `panic "fixture…"` and is not taken)"""
+    res = []
+    t = desc.split(";")
+    if len(t) == 6:
+        for idx, empties in ((3, ["_", "_", "~", "~"]), (4, ["_", "~"])):
+            rows = [] if t[idx] == "_" else t[idx].split("+")
+            for i in range(len(rows)):
+                rest = rows[:i] + rows[i + 1:]
+                nt = t[:idx] + ["+".join(rest) if rest else "_"] + t[idx + 1:]
+                res.append(";".join(nt) + " " + ops)
+            for i, row in enumerate(rows):
+                rid, _, fs = row.partition("=")
+                fl = fs.split("/")
+                for j in range(min(len(fl), len(empties))):
+                    if fl[j] == empties[j]:
+                        continue
+                    if "." in fl[j]:   # drop one element of a list
+                        els = fl[j].split(".")
+                        for e in range(len(els)):
+                            nf = fl[:j] + [".".join(els[:e] + els[e + 1:])] + fl[j + 1:]
+                            nt = t[:idx] + ["+".join(rows[:i] + [rid + "=" + "/".join(nf)] + rows[i + 1:])] + t[idx + 1:]
+                            res.append(";".join(nt) + " " + ops)
+                    nf = fl[:j] + [empties[j]] + fl[j + 1:]
+                    nt = t[:idx] + ["+".join(rows[:i] + [rid + "=" + "/".join(nf)] + rows[i + 1:])] + t[idx + 1:]
+                    res.append(";".join(nt) + " " + ops)
+        if t[5] != "_":
+            ks = t[5].split(",")
+            for i in range(len(ks)):
+                rest = ks[:i] + ks[i + 1:]
+                res.append(";".join(t[:5] + [",".join(rest) if rest else "_"]) + " " + ops)
+    return res
+
+
+def _w_item(s):
+    """`[WRITES>]ENTRY:ops` -> (writes, entry, ops)"""
+    ws, _, rest = s.rpartition(">")
+    e, _, o = rest.partition(":")
+    return ([] if not ws else ws.split("&")), e, ([] if o == "_" else o.split(","))
+
+
+def _w_show(items):
+    return "/".join(("&".join(ws) + ">" if ws else "") + e + ":" + (",".join(o) if o else "_") for ws, e, o in items)
+
+
+def _w_cands(desc, ops):
+    """a W case: drop an item (its writes move to the next item), drop a write, drop an operation, shorten a
+    written list; then the world"""
+    items = [_w_item(x) for x in ops.split("/")]
+    res = []
+    for i in range(len(items)):
+        if len(items) > 1:
+            rest = [list(x) for x in items[:i] + items[i + 1:]]
+            if i < len(items) - 1:
+                rest[i][0] = items[i][0] + rest[i][0]
+            res.append(desc + " " + _w_show(rest))
+            if items[i][0] and i < len(items) - 1:   # … or vanish with it
+                res.append(desc + " " + _w_show(items[:i] + items[i + 1:]))
+    for i, (ws, e, o) in enumerate(items):
+        for j in range(len(ws)):
+            res.append(desc + " " + _w_show(items[:i] + [(ws[:j] + ws[j + 1:], e, o)] + items[i + 1:]))
+            f = ws[j].split("=")
+            for a in range(2, len(f)):   # one element less in a written list
+                if "," in f[a]:
+                    els = f[a].split(",")
+                    for x in range(len(els)):
+                        nw = "=".join(f[:a] + [",".join(els[:x] + els[x + 1:])] + f[a + 1:])
+                        res.append(desc + " " + _w_show(items[:i] + [(ws[:j] + [nw] + ws[j + 1:], e, o)] + items[i + 1:]))
+        for j in range(len(o)):
+            res.append(desc + " " + _w_show(items[:i] + [(ws, e, o[:j] + o[j + 1:])] + items[i + 1:]))
+    return res + _world_cands(desc, ops)
+
+
 def _candidates(case):
     """smaller variants of a script case: drop one operation, drop one element of one set"""
     f = case.split(" ")
@@ -134,6 +234,8 @@ def _candidates(case):
             if all(not x.startswith(last) for x in o):
                 res.append(";".join([t[0], ",".join(ops_l[:-1]), t[2]]) + " " + ops)
         return res
+    if desc.startswith("W;"):
+        return _w_cands(desc, ops)
     if desc.startswith("R;"):
         # drop a segment, drop one operation of a segment (the world stays as generated)
         segs = [sg.split(":") for sg in ops.split("/")]
@@ -149,36 +251,7 @@ def _candidates(case):
                 r = oo[:j] + oo[j + 1:]
                 ns = segs[:i] + [[k, ",".join(r) if r else "_"]] + segs[i + 1:]
                 res.append(desc + " " + "/".join(a + ":" + b for a, b in ns))
-        # the world: drop a row, empty one field of a row (a candidate whose fixture cannot be built —
-        # a link to a dropped entity — answers `panic "fixture…"` and is not taken)
-        t = desc.split(";")
-        if len(t) == 6:
-            for idx, empties in ((3, ["_", "_", "~", "~"]), (4, ["_", "~"])):
-                rows = [] if t[idx] == "_" else t[idx].split("+")
-                for i in range(len(rows)):
-                    rest = rows[:i] + rows[i + 1:]
-                    nt = t[:idx] + ["+".join(rest) if rest else "_"] + t[idx + 1:]
-                    res.append(";".join(nt) + " " + ops)
-                for i, row in enumerate(rows):
-                    rid, _, fs = row.partition("=")
-                    fl = fs.split("/")
-                    for j in range(min(len(fl), len(empties))):
-                        if fl[j] == empties[j]:
-                            continue
-                        if "." in fl[j]:   # drop one element of a list
-                            els = fl[j].split(".")
-                            for e in range(len(els)):
-                                nf = fl[:j] + [".".join(els[:e] + els[e + 1:])] + fl[j + 1:]
-                                nt = t[:idx] + ["+".join(rows[:i] + [rid + "=" + "/".join(nf)] + rows[i + 1:])] + t[idx + 1:]
-                                res.append(";".join(nt) + " " + ops)
-                        nf = fl[:j] + [empties[j]] + fl[j + 1:]
-                        nt = t[:idx] + ["+".join(rows[:i] + [rid + "=" + "/".join(nf)] + rows[i + 1:])] + t[idx + 1:]
-                        res.append(";".join(nt) + " " + ops)
-            if t[5] != "_":
-                ks = t[5].split(",")
-                for i in range(len(ks)):
-                    rest = ks[:i] + ks[i + 1:]
-                    res.append(";".join(t[:5] + [",".join(rest) if rest else "_"]) + " " + ops)
+        res += _world_cands(desc, ops)
         return res
     if desc.startswith("stacked;"):
         # only the script is shrunk (the world of a stacked case stays as generated)
@@ -222,6 +295,9 @@ def shrink(ctx, case, fails, rounds=60, skip=lambda c: False):
         nxt = None
         for c, a, m, s in zip(cands, impl, model, spec):
             if "bad-case" in (a, m, s) or a.startswith("panic \"fixture") or a.startswith("panic \"bad") or skip(c):
+                continue
+            if c.startswith("W;") and "fail" in m.split(" "):   # the code makes no promise for this script
+
                 continue
             if fails(a, m, s):
                 nxt = c
@@ -307,6 +383,14 @@ def run(ctx, replay_cases=None):
         "harness writes them through Create / SetLinks / IncrementLinkCount",
         "operands of a union are sorted in the union's direction (Desc.WF: both operand cursors and the union use "
         "the same `forward` flag)",
+        "bbolt inside a write transaction: a cursor taken from a bucket AFTER writes sees the bucket's current keys; "
+        "Seek on a cursor taken BEFORE single-key puts / deletes in the same bucket object searches the current keys from "
+        "the root (Cursor/Write.lean `rebase`); a bucket that was deleted and re-created is a different bucket object "
+        "(`ident`) — exercised against the real bbolt on every run (W cases), both with everything in bbolt's in-memory "
+        "nodes and over committed pages",
+        "what each write path does to the sets (Cursor/World.lean `applyWrite`: Update re-creates the tags bucket and diffs "
+        "the links, DeleteById removes the entity bucket, …) is modelled and compared through the cursors on every W case; "
+        "that stores keep indexes and links consistent is C03-C05",
     ]
     # every C14 case but an exhaustive block of the thorough tier takes micro- to milliseconds
     os.environ.setdefault("VERIF_CASE_TIMEOUT", "10" if ctx.tier == "quick" else "60")
@@ -393,6 +477,24 @@ def run(ctx, replay_cases=None):
                 o = [x[1:] for x in st]
                 hist["multi:cursors:%d" % len(c.split(";")[1].split(","))] += 1
                 hist["multi:switches_between_cursors"] += sum(1 for x, y in zip(st, st[1:]) if x[0] != y[0])
+            elif c.startswith("W;"):
+                its = [_w_item(x) for x in ops.split("/")]
+                o = [x for _, _, oo in its for x in oo]
+                hist["write_items:%d" % len(its)] += 1
+                prev_row = None
+                for ws, e, _ in its:
+                    for wr in ws:
+                        hist["write:" + wr.split("=")[0]] += 1
+                    if e[0] == "o":
+                        if ws and prev_row == e[1:]:
+                            hist["write:same-row-reopened-after-write"] += 1
+                        elif ws:
+                            hist["write:other-row-opened-after-write"] += 1
+                        prev_row = e[1:]
+                    elif ws:
+                        hist["write:reseek-after-write"] += 1
+                    else:
+                        hist["write:reseek-without-write"] += 1
             elif c.startswith("R;"):
                 segs = [sg.split(":")[1] for sg in ops.split("/")]
                 hist["reuse_segments:%d" % len(segs)] += 1
